@@ -83,21 +83,27 @@ class AffineParser(BaseParser):
     def _create_binop_expr(
         self, lhs: AffineExpr, rhs: AffineExpr, binop: MLIRToken
     ) -> AffineExpr:
-        match binop.text:
-            case "+":
-                return lhs + rhs
-            case "-":
-                return lhs - rhs
-            case "*":
-                return lhs * rhs
-            case "ceildiv":
-                return lhs.ceil_div(rhs)
-            case "floordiv":
-                return lhs // rhs
-            case "mod":
-                return lhs % rhs
-            case _:
-                raise ParseError(binop.span, f"Unknown binary operator {binop.text}")
+        try:
+            match binop.text:
+                case "+":
+                    return lhs + rhs
+                case "-":
+                    return lhs - rhs
+                case "*":
+                    return lhs * rhs
+                case "ceildiv":
+                    return lhs.ceil_div(rhs)
+                case "floordiv":
+                    return lhs // rhs
+                case "mod":
+                    return lhs % rhs
+                case _:
+                    raise ParseError(
+                        binop.span, f"Unknown binary operator {binop.text}"
+                    )
+        except NotImplementedError as e:
+            # e.g. semi-affine expressions, which are not supported yet
+            raise ParseError(binop.span, str(e)) from e
 
     def _parse_binop_rhs(
         self,
